@@ -181,6 +181,22 @@ func verifH_C17_document() {
 	if feat["security"] {
 		ss := doc3.Components.SecuritySchemes
 		verifAssert(ss["key"] != nil && ss["key"].Value.Type == "apiKey" && ss["key"].Value.In == "header" && ss["key"].Value.Name == "X-Key" && ss["basic"] != nil && ss["basic"].Value.Type == "http" && ss["basic"].Value.Scheme == "basic" && ss["oauth"] != nil && ss["oauth"].Value.Type == "oauth2" && ss["oauth"].Value.Flows != nil, "C17 document: security definitions become the corresponding schemes")
+		if ss["oauth"] != nil && ss["oauth"].Value.Flows != nil {
+			so := doc2.SecurityDefinitions["oauth"]
+			fl := ss["oauth"].Value.Flows
+			var f3 *openapi3.OAuthFlow
+			switch so.Flow {
+			case "implicit":
+				f3 = fl.Implicit
+			case "password":
+				f3 = fl.Password
+			case "application":
+				f3 = fl.ClientCredentials
+			case "accessCode":
+				f3 = fl.AuthorizationCode
+			}
+			verifAssert(f3 != nil && f3.AuthorizationURL == so.AuthorizationURL && f3.TokenURL == so.TokenURL && len(f3.Scopes) == 1 && f3.Scopes["r"] == "read", "C17 document: the OAuth2 flow keeps its URLs and scopes")
+		}
 	}
 
 	// and back
@@ -214,6 +230,13 @@ func verifH_C17_document() {
 		if ba != nil && bb != nil {
 			verifAssert(ba.Required == fa.Required && bb.Required == fb.Required, "C17 back: form parameters keep their requiredness")
 		}
+	}
+	if feat["security"] {
+		bs, ss2 := back.SecurityDefinitions, doc2.SecurityDefinitions
+		verifAssert(bs["key"] != nil && bs["key"].Type == "apiKey" && bs["key"].In == "header" && bs["key"].Name == "X-Key" && bs["basic"] != nil && bs["basic"].Type == "basic", "C17 back: apiKey and basic definitions come back")
+		bo, so := bs["oauth"], ss2["oauth"]
+		verifAssert(bo != nil && bo.Type == "oauth2" && bo.Flow == so.Flow && bo.AuthorizationURL == so.AuthorizationURL && bo.TokenURL == so.TokenURL && len(bo.Scopes) == 1 && bo.Scopes["r"] == "read", "C17 back: the OAuth2 definition keeps its flow, URLs and scopes")
+		verifAssert(bpi.Get.Security != nil && len(*bpi.Get.Security) == 2, "C17 back: operation security requirements come back")
 	}
 	b200 := bpi.Get.Responses["200"]
 	verifAssert(b200 != nil && b200.Description == "ok" && b200.Schema != nil && b200.Schema.Ref == "#/definitions/Item", "C17 back: response keeps description and schema reference")
